@@ -142,6 +142,8 @@ def run(ctx):
         if rep.get("case"):
             cases = [rep["case"]]
             direct = [dict(rep["case"], ViaPre=False)]
+    for c in cases[: (6 if ctx.tier == "quick" else 60)]:
+        c["Templates"] = True
     outs = S.run_pipeline(ctx, cases)
     outs_d = S.run_pipeline(ctx, direct)
     concrete = 0
@@ -194,7 +196,18 @@ def run(ctx):
         terms.append(pre_case_term(t, bo.get("Def") or {}, bo.get("Pre"), bo.get("Panic")) if (bo.get("Panic") or bo.get("Pre")) else None)
     terms = [t for t in terms if t]
     # command line history, incl. an existing, longer .inkfempre at the same path
-    big, small = G.gen_portal(rng), G.gen_beam(rng)
+    # two structures that both solve; the first one's .inkfempre is the longer text
+    big = small = None
+    for _ in range(12):
+        a, b = G.gen_portal(rng), G.gen_beam(rng)
+        ra = cli.run(ctx, ["solve", "-p", "x.inkfem"], files={"x.inkfem": a.text()}, name="c12s")
+        rb = cli.run(ctx, ["solve", "-p", "x.inkfem"], files={"x.inkfem": b.text()}, name="c12s")
+        la, lb = ra.files.get("x.inkfempre"), rb.files.get("x.inkfempre")
+        if ra.status == 0 and rb.status == 0 and la and lb and len(la) != len(lb):
+            big, small = (a, b) if len(la) > len(lb) else (b, a)
+            break
+    if big is None:
+        big, small = G.gen_portal(rng), G.gen_beam(rng)
     log, files = cli_history(ctx, [["pre", "x.inkfem"], ("write", "x.inkfem", small.text()), ["pre", "x.inkfem"], ["solve", "x.inkfempre"], ["solve", "x.inkfem"]],
                              {"x.inkfem": big.text()})
     codes = [e[1] for e in log if e[0] != "write"]
@@ -219,6 +232,17 @@ def run(ctx):
             corr = "pre-reader model and implementation differ: " + mism[0][1][:300]
         else:
             validated = nn
+    if res["stage"] != "translate":
+        triples = [("tmpl_preprocess", o["PreData"], o["PreText"]) for o in outs if o.get("PreData") and o.get("PreText")]
+        ng, mg = S.stageG(ctx, triples)
+        ctx.log("stage G: %d .inkfempre texts rendered by the Coq model of text/template from the translated template, %s" % (
+            ng, "identical to what Go wrote" if mg == [] else ("BROKEN" if mg is None else "%d differ" % len(mg))))
+        if mg is None:
+            corr = corr or "stage G case file did not compile"
+        elif mg:
+            corr = corr or ("the translated preprocess template rendered by the model differs from the written text: " + mg[0][1][:200])
+        else:
+            validated += ng
     if corr and concrete == 0:
         ctx.violation("correspondence between the Coq model of the .inkfempre reader and the implementation no longer holds (%s)" % corr,
                       {"correspondence": corr, "searched": "%d structures through the write/read-back and solve-from-pre oracles, none fails" % len(cases)}, no_input=True)
